@@ -486,6 +486,9 @@ class CacheSim(object):
         import time as _t
         if isinstance(ts, (tuple, _t.struct_time)):
             ts = calendar.timegm(tuple(ts))
+        elif isinstance(ts, str):
+            from simcore import wire
+            ts = wire.ts_epoch(ts)
         return self.now() > ts
 
     def run(self):
@@ -556,6 +559,9 @@ class CacheSim(object):
         if ev.get("form") == "struct":
             import time as _t
             expv = _t.gmtime(exp)
+        elif ev.get("form") == "str":
+            import time as _t
+            expv = _t.strftime("%Y-%m-%dT%H:%M:%SZ", _t.gmtime(exp))     # the timestamp as the assertion spells it
         elif ev.get("form") == "zero":
             expv = 0        # what the client stores for an assertion that carries no NotOnOrAfter at all
             self.count("probe.set.zero-expiry-with-data")
@@ -901,7 +907,7 @@ def gen_c19(seed, tier):
             for a in r.sample(use_attrs, r.randrange(0 if len(use_attrs) > 1 else 1, len(use_attrs) + 1)):
                 ava[a] = ["v%d-%d" % (mk, j) for j in range(r.randrange(1, 3))] + (["shared"] if r.chance(0.3) else [])
             e.update({"s": s, "src": src, "off": r.pick([-3600, -1, 0, 1, 3600, -2, 2, 5, 3600, 600]), "ava": ava,
-                      "marker": "m%d" % mk, "form": r.pick(["int", "int", "int", "struct", "struct", "zero"]),
+                      "marker": "m%d" % mk, "form": r.pick(["int", "int", "int", "struct", "struct", "zero", "str", "str"]),
                       "with_name_id": r.chance(0.5)})
             prev = last_set.get((s, src))
             if prev is not None and r.chance(0.3):
